@@ -217,6 +217,14 @@ def check_tag_encoders(chk, ctx, rule):
     todo = []
     for arm in arms:
         if arm.callee is None:
+            if T.mentions(arm.term, lambda t: t.op in ('tableget',
+                                                       'dyncall')):
+                chk.ob(rule, 'arm %r' % (arm.tag,), False,
+                       'the bytes emitted are read from a module-level '
+                       'table at run time (%s): they depend on call '
+                       'history, not only on the value' %
+                       T.show(arm.term)[:80])
+                continue
             chk.undecide(rule, 'arm %r' % (arm.tag,), 'arm does not emit '
                          'tag ++ one encoder call: %s' %
                          T.show(arm.term)[:100])
